@@ -22,6 +22,9 @@ META = dict(
 )
 
 SPEC, PKG, HARNESS = c07.SPEC, c07.PKG, c07.HARNESS
+DEV_TEXT = dict(c07.DEV_TEXT,
+                Dev_C08_IdentityRawLeafRefused="DagModifier append, identity CID prefix + RawLeaves: a new chunk > 128 bytes becomes a raw leaf with "
+                                               "an oversized identity CID (only dag-pb nodes are re-hashed) and the append fails with 'digest too large'")
 
 
 def run(ctx):
@@ -37,16 +40,22 @@ def run(ctx):
     ctx.specdir(SPEC)
     cfg = c07.write_gen_cfg(ctx, "gen_append.cfg", Kind='"append"', GN=60, GM=60, GWidths=c07.tset([2, 3, 4]),
                             PartSel=ctx.seed % 7, SmallN=16 if q else 60, SmallM=12 if q else 60, SmallW=2,
-                            Small2N=8 if q else 24, Small2M=12 if q else 24, SampleMod=151 if q else 7, Salt=ctx.seed)
+                            Small2N=8 if q else 24, Small2M=12 if q else 24, SampleMod=151 if q else 7, Salt=ctx.seed,
+                            # the identity-builder family of GenAppendCfg (chunk sizes around the 128-byte inlining limit)
+                            IdN=4 if q else 6, IdM=4 if q else 6, IdChunks=c07.tset([4, 100, 200]), IdMod=4 if q else 1)
+    sdir = ctx.specdir(SPEC)
+    body = open(os.path.join(sdir, cfg)).read().replace("SPECIFICATION GSpec", "SPECIFICATION CSpec").replace("INVARIANTS Emit", "INVARIANTS CEmit")
+    open(os.path.join(sdir, cfg), "w").write(body)
     _, cases, binp = c07.parallel(
         lambda: ctx.tlc_mc(SPEC, "MCUnixFSFile.tla", "MCUnixFSFile.cfg" if q else "MCUnixFSFileBig.cfg", timeout=2400,
                            coverage=not q, workers=4 if q else 10),
-        lambda: ctx.tlc_gen(SPEC, "GenUnixFSFile.tla", cfg, timeout=2400, workers=2 if q else 6),
+        lambda: ctx.tlc_gen(SPEC, "GenAppendCfg.tla", cfg, timeout=2400, workers=2 if q else 6),
         lambda: ctx.go_build(PKG, HARNESS))
     if not cases or ctx.brokens:
         return
     # group by base so the harness builds every base once
-    cases.sort(key=lambda c: (c["w"], c["lk"], len(c["bsz"]), c["bsz"][-1:], len(c["nsz"]), c["nsz"][-1:]))
+    cases.sort(key=lambda c: (c["cb"] == "identity", c["w"], c["lk"], c["cb"], c["cs"], len(c["bsz"]), c["bsz"][-1:],
+                              len(c["nsz"]), c["nsz"][-1:], c["via"]))
     tr = os.path.join(ctx.work, "c08_trace.ndjson")
     if ctx.replay_behaviours(binp, "TestVerifC08", PKG, cases, name="append", env={"C08_TRACE": tr}, timeout=1800,
                              nontrivial=lambda c: len(c["bsz"]) > c["w"]) is None:
@@ -84,7 +93,7 @@ def run(ctx):
         chains,
         lambda: c07.negative_control(ctx, events, "appends", corrupt))
     ctx.cov["exhaustive"] = not q
-    ok = c07.report_trace(ctx, res, "appends", n_app, c07.DEV_TEXT)
+    ok = c07.report_trace(ctx, res, "appends", n_app, DEV_TEXT)
     ctx.cov["append_not_equal_fresh_layout"] = res["not_fresh"]
     samp = next((e for e in events if e["ev"] == "Append" and 4 <= len(json.dumps(e)) <= 900), None)
     if samp:
@@ -94,5 +103,5 @@ def run(ctx):
     for r in recs:
         if r.get("ev") == "Append":
             ctx.nontrivial(("T", r["L2"], r["chunker"], r["nodes"]))
-    c07.report_trace(ctx, res2, "chains", sum(1 for r in recs if r.get("ev") == "Append"), c07.DEV_TEXT)
+    c07.report_trace(ctx, res2, "chains", sum(1 for r in recs if r.get("ev") == "Append"), DEV_TEXT)
     ctx.cov["append_not_equal_fresh_layout"] += res2["not_fresh"]
